@@ -37,11 +37,10 @@ Init ==
 Max(a, b) == IF a > b THEN a ELSE b
 Free == {w \in W : wpc[w] = "none"}
 
-\* Call: enqueue, set target, spawn workers up to count (one critical section)
-CallEnqueue(c) ==
+\* Call: enqueue, set target, spawn workers up to count (one critical section); n is the count argument
+CallEnqueueN(c, n) ==
   /\ cpc[c] = "idle"
-  /\ LET n == CountOf[c]
-         need == IF count < n THEN n - count ELSE 0 IN
+  /\ LET need == IF count < n THEN n - count ELSE 0 IN
      /\ Cardinality(Free) >= need
      /\ \E S \in SUBSET Free : Cardinality(S) = need /\
           wpc' = [w \in W |-> IF w \in S THEN "check" ELSE wpc[w]]
@@ -51,6 +50,7 @@ CallEnqueue(c) ==
   /\ queue' = Append(queue, c)
   /\ cpc' = [cpc EXCEPT ![c] = "waiting"]
   /\ UNCHANGED <<witem, started, ended, waiter>>
+CallEnqueue(c) == CallEnqueueN(c, CountOf[c])
 
 TooMany == IF ExitCmp = ">" THEN count > target ELSE count >= target
 
